@@ -257,6 +257,17 @@ func propC18(r *Run) {
 			doc := genDoc(r, "/srv/whawty/probe")
 			path := fmt.Sprintf("/etc/whawty/probe%d.yaml", k)
 			text := doc.text()
+			if r.Choose("long-file", 6) == 0 {
+				// a configuration file longer than any read buffer: comments in front of, or after,
+				// the document change nothing about what it says
+				pad := strings.Repeat("# "+strings.Repeat("x", 78)+"\n", 60+r.Choose("pad-lines", 60))
+				if r.Choose("pad-where", 2) == 0 {
+					text = pad + text
+				} else {
+					text = text + pad
+				}
+				r.Count("probe:configuration-files-over-4KiB")
+			}
 			w.fs.Put(path, []byte(text), 0o600)
 			var d *lib.Dir
 			var err error
